@@ -718,9 +718,8 @@ def rule_literal(ctx):
             r.violate('StringTools.__pyx_lzss_decompress:return', STC, decl[0].line,
                       'the decoder returns %s, which is not the position in the compressed input (%s): the caller compares the result with compressed_length and rejects every stream' % (nm, '/'.join(sorted(inv))))
     # what a literal step does to the output: from the symbolic execution of the token step (see C12-EXTENT), not from the spelling of the store
-    paths = []
     try:
-        token_footprint(fast, paths)
+        paths = _footprint(ctx)[2]
     except Unmodellable as x:
         raise AnalysisError('C12-LIT cannot model the token step of the decoder: %s' % x)
     lits = [p for p in paths if p[0] == 'literal']
@@ -1632,6 +1631,7 @@ def token_footprint(fdecl, paths=None):
         raise Unmodellable('the output position is not one variable (the stores of a token are relative to %s)' % (sorted(s[1] for s in psyms) or 'nothing'))
     P = next(iter(psyms))
     VP = Lin(0, {P: 1})
+    Q = getattr(ex, 'inpos', None)
     classes, problems, seen = {}, [], set()
 
     def problem(clause, kind, msg):
@@ -1645,10 +1645,10 @@ def token_footprint(fdecl, paths=None):
             raise Unmodellable('%s is %r, which depends on %s' % (what, lin, sorted(map(repr, opq))[0]))
         return bs
 
+    # ---- per path: advance, conditions on the room R = dst_len - out_pos, stores relative to the output position
+    groups = {}
     for st in finals:
         kind = 'literal' if any(src[0] == 'in' for _, _, src, _ in st.writes) else 'back-reference'
-        label = '%s token of %d input byte(s)' % (kind, len(st.src_read))
-        clauses = classes.setdefault((kind, len(st.src_read), st.trace, st.exit), set())
         if P[1] not in st.env:
             raise Unmodellable('the output position %s is not set at the end of the step' % P[1])
         adv = st.simp(st.env[P[1]].add(VP, -1))
@@ -1658,96 +1658,163 @@ def token_footprint(fdecl, paths=None):
             cl, cp = d.t.get('L', 0), d.t.get(P, 0)
             if cl + cp != 0 or abs(cl) != 1:
                 raise Unmodellable('a condition compares dst_len with something that is not a distance from the output position (%r %s 0)' % (d, op))
-            e = Lin(d.c, {s: v for s, v in d.t.items() if s not in ('L', P)})
-            e = st.simp(e)
+            e = st.simp(Lin(d.c, {s: v for s, v in d.t.items() if s not in ('L', P)}))
             deps |= pure(e, 'a bound compared with dst_len')
-            # d = e + cl * R  op 0
-            rcons.append((e.scale(-1), op) if cl == 1 else (e, _FLIP[op]))
+            rcons.append((e.scale(-1), op) if cl == 1 else (e, _FLIP[op]))        # d = e + cl * R  op 0   ->   R op' bound
         ws = []
         for off, n, src, what in st.writes:
-            rel = st.simp(off.add(VP, -1))
-            n = st.simp(n)
+            rel, n = st.simp(off.add(VP, -1)), st.simp(n)
             deps |= pure(rel, 'the offset of a store') | pure(n, 'the size of a copy')
-            ws.append((rel, n, src, what))
+            ws.append((rel, n, src, what, off))
+        consumed = None
+        if Q is not None and Q[1] in st.env:
+            consumed = st.simp(st.env[Q[1]].add(Lin(0, {Q: 1}), -1)).const()
         if paths is not None:
-            paths.append((kind, adv, ws, st.exit))
-        asgs = st.assignments(deps)
-        if asgs is None:
-            raise Unmodellable('the footprint of a %s depends on %d input bytes: too many combinations' % (label, len(deps)))
-        clauses |= {'write-extent', 'coverage', 'stop'}
-        for asg in asgs:
-            a = _lin_value(adv, asg)
-            if a < 1:
-                problem('advance', kind, 'a %s advances the output position by %d: the decoder makes no progress / steps back' % (label, a))
+            paths.append((kind, adv, [w[:4] for w in ws], st.exit))
+        info = dict(st=st, kind=kind, adv=adv, rcons=rcons, ws=ws, deps=deps, consumed=consumed,
+                    label='%s token of %d input byte(s)' % (kind, len(st.src_read)))
+        info['clauses'] = classes.setdefault((kind, len(st.src_read), st.trace, st.exit), set())
+        # paths that differ only in what they found out about the room belong to the same token: same decisions on input bytes and decoder state,
+        # or one list of decisions continues the other (a decision taken on one side of a test of the room only)
+        dkey = tuple(t for t in st.trace if t[0] != 'len')
+        for k2 in list(groups):
+            if k2[:len(dkey)] == dkey or dkey[:len(k2)] == k2:
+                if k2 != dkey:
+                    groups.setdefault(dkey, []).extend(groups.pop(k2))
+        groups.setdefault(dkey, []).append(info)
+
+    for gkey, infos in groups.items():
+        deps = set()
+        for i in infos:
+            deps |= i['deps']
+        by_asg = {}
+        for i in infos:
+            asgs = i['st'].assignments(deps)
+            if asgs is None:
+                raise Unmodellable('the footprint of a %s depends on %d input bytes: too many combinations' % (i['label'], len(deps)))
+            i['clauses'] |= {'write-extent', 'coverage', 'stop', 'advance'}
+            for asg in asgs:
+                lo, hi = _r_range(i['rcons'], asg, 1)
+                by_asg.setdefault(tuple(asg.get(k) for k in sorted(deps)), []).append((i, asg, _lin_value(i['adv'], asg), lo, hi))
+        for akey, rows0 in by_asg.items():
+            # the advance of this token when room is plentiful is what the token denotes; the stream is the compressor's, so at least that much room is left
+            rows = [(i, a, lo, hi) for i, asg, a, lo, hi in rows0]
+            asg_of = {id(i): asg for i, asg, a, lo, hi in rows0}
+            free = [a for i, a, lo, hi in rows if hi is None]
+            if not free:
+                raise Unmodellable('no path of a %s is taken when a lot of room is left in the output' % infos[0]['label'])
+            true_adv = max(free)
+            if true_adv < 1:
+                problem('advance', infos[0]['kind'], 'a %s advances the output position by %d: the decoder makes no progress / steps back' % (infos[0]['label'], true_adv))
                 continue
-            lo_r, hi_r = _r_range(rcons, asg, a)
-            if hi_r is not None and lo_r > hi_r:
-                continue                # this path is not taken for these bytes whatever room is left
-            if st.exit == RET and (hi_r is None or hi_r > a):
-                problem('stop', kind, 'after a %s that advances the output by %d the decoder returns although up to %s bytes of room were left (%d would be exactly full): '
-                        'it stops before the output is complete' % (label, a, 'any number of' if hi_r is None else hi_r, a))
-            if st.exit != RET and lo_r == a:
-                problem('stop', kind, 'after a %s that fills the output exactly (advance %d = room %d) the decoder does not return: the next token, or padding bits of the '
-                        'last flag byte, are decoded past the end of the output buffer and of the input' % (label, a, a))
-            covered = []
-            for rel, n, src, what in ws:
-                wlo, wn = _lin_value(rel, asg), _lin_value(n, asg)
-                if wn < 0:
-                    problem('write-extent', kind, 'a %s makes a %s of %d bytes (a negative size is a huge size_t)' % (label, what, wn))
+            for i, a, lo, hi in rows:
+                st, kind, label, asg = i['st'], i['kind'], i['label'], asg_of[id(i)]
+                lo_r = max(lo, true_adv)
+                if hi is not None and lo_r > hi:
+                    continue            # taken only when less room is left than the token needs: not with the compressor's streams
+                if a != true_adv:
+                    problem('advance', kind, 'a %s that denotes %d byte(s) advances the output by %d when %d byte(s) of room are left: the result depends on the room, not on the token' % (label, true_adv, a, lo_r))
                     continue
-                if wn == 0:
+                if st.exit == RET and (hi is None or hi > a):
+                    problem('stop', kind, 'after a %s that advances the output by %d the decoder returns although up to %s bytes of room were left (%d would be exactly full): '
+                            'it stops before the output is complete' % (label, a, 'any number of' if hi is None else hi, a))
+                if st.exit != RET and lo_r == a:
+                    problem('stop', kind, 'after a %s that fills the output exactly (advance %d = room %d) the decoder does not return: the next token, or padding bits of the '
+                            'last flag byte, are decoded past the end of the output buffer and of the input' % (label, a, a))
+                covered = []
+                for rel, n, src, what, off in i['ws']:
+                    wlo, wn = _lin_value(rel, asg), _lin_value(n, asg)
+                    if wn < 0:
+                        problem('write-extent', kind, 'a %s makes a %s of %d bytes (a negative size is a huge size_t)' % (label, what, wn))
+                        continue
+                    if wn == 0:
+                        continue
+                    covered.append((wlo, wlo + wn))
+                    if wlo < 0:
+                        problem('write-extent', kind, 'a %s (advance %d) makes a %s at %d bytes before the output position: bytes that are already decoded are overwritten' % (label, a, what, -wlo))
+                    elif wlo + wn > a and wlo + wn > lo_r:
+                        problem('write-extent', kind, 'a %s that advances the output by %d makes a %s of %d byte(s) at offset %d from the output position, i.e. up to offset %d, while as '
+                                'little as %d byte(s) of the output buffer are left on this path: %d byte(s) are written past the end of the buffer (nothing that dominates the %s bounds it by dst_len)'
+                                % (label, a, what, wn, wlo, wlo + wn, lo_r, wlo + wn - lo_r, what))
+                pos = 0
+                for wlo, whi in sorted(covered):
+                    if wlo > pos:
+                        break
+                    pos = max(pos, whi)
+                if pos < a:
+                    problem('coverage', kind, 'a %s advances the output by %d but its stores cover only the first %d byte(s) of that slice: the rest of the result is never written' % (label, a, max(pos, 0)))
+
+    for infos in groups.values():
+        for i in infos:
+            st, kind, label, adv = i['st'], i['kind'], i['label'], i['adv']
+            # input: only bytes that the step also consumes are read (the last token ends the input)
+            if i['consumed'] is not None:
+                i['clauses'].add('input-extent')
+                over = [k for k in st.src_read if k >= i['consumed']]
+                if over:
+                    problem('input-extent', kind, 'a %s reads the input up to %d byte(s) behind the input position but advances the input position by %d only: for the last token of '
+                            'the stream this is a read past the end of the compressed data' % (label, max(over) + 1, i['consumed']))
+            # copies out of the output: one displacement, source below the destination
+            disps = {}
+            for rel, n, src, what, off in i['ws']:
+                if src[0] != 'out':
                     continue
-                covered.append((wlo, wlo + wn))
-                if wlo < 0:
-                    problem('write-extent', kind, 'a %s (advance %d) makes a %s at %d bytes before the output position: bytes that are already decoded are overwritten' % (label, a, what, -wlo))
-                elif wlo + wn > a and wlo + wn > lo_r:
-                    problem('write-extent', kind, 'a %s that advances the output by %d makes a %s of %d byte(s) at offset %d from the output position, i.e. up to offset %d, while as '
-                            'little as %d byte(s) of the output buffer are left on this path: %d byte(s) are written past the end of the buffer (nothing that dominates the %s bounds it by dst_len)'
-                            % (label, a, what, wn, wlo, wlo + wn, lo_r, wlo + wn - lo_r, what))
-            pos = 0
-            for wlo, whi in sorted(covered):
-                if wlo > pos:
-                    break
-                pos = max(pos, whi)
-            if pos < a:
-                problem('coverage', kind, 'a %s advances the output by %d but its stores cover only the first %d byte(s) of that slice: the rest of the result is never written' % (label, a, max(pos, 0)))
-        # copies out of the output: one displacement, source below the destination
-        disps = {}
-        for off, n, src, what in st.writes:
-            if src[0] != 'out':
-                continue
-            clauses |= {'read-source', 'displacement'}
-            disp = st.simp(src[1].add(off, -1))
-            disps.setdefault(disp.key(), disp)
-            n = st.simp(n)
-            # memcpy: source and destination must not overlap at all.  memmove / single stores: the bytes that land in the token's slice must come from below the destination
-            us = [st.simp(disp.add(n))]
-            if what not in ('memcpy', '__builtin_memcpy'):
-                us.append(st.simp(disp.add(adv).add(off.add(VP, -1), -1)))
-            if any(hi is not None and hi <= 0 for lo, hi in map(st.bounds, us)):
-                continue
-            bs = set()
-            for u in us:
-                b2, opq = _deps(u)
-                if opq:
-                    raise Unmodellable('the source of a copy ends at %r relative to its destination, which depends on %s' % (u, sorted(map(repr, opq))[0]))
-                bs |= b2
-            uas = st.assignments(bs, 300000)
-            if uas is None:
-                raise Unmodellable('the distance between source and destination of a copy depends on %d input bytes: too many combinations' % len(bs))
-            for asg in uas:
-                vs = [_lin_value(u, asg) for u in us]
-                if all(v > 0 for v in vs):
-                    nn = _lin_value(n, asg)
-                    problem('read-source', kind, 'a %s makes a %s of %d byte(s) whose source starts %d byte(s) below its destination: the last %d byte(s) it reads are at or above the '
-                            'destination (not yet decoded%s), e.g. for the token bytes %s' % (
-                                label, what, nn, nn - vs[0], vs[0], ' / overlapping, undefined for memcpy' if len(us) == 1 else '',
-                                ' '.join('%02X' % asg[k] if k in asg else '..' for k in sorted(st.src_read))))
-                    break
-        if len(disps) > 1:
-            ds = sorted(disps.values(), key=repr)
-            problem('displacement', kind, 'the copies of one %s use different distances between source and destination (%r and %r): parts of the match are taken from the wrong place' % (label, ds[0], ds[1]))
+                i['clauses'] |= {'read-source', 'displacement'}
+                disp = st.simp(src[1].add(off, -1))
+                disps.setdefault(disp.key(), disp)
+                # memcpy: source and destination must not overlap at all.  memmove / single stores: the bytes that land in the token's slice must come from below the destination
+                us = [st.simp(disp.add(n))]
+                if what not in ('memcpy', '__builtin_memcpy'):
+                    us.append(st.simp(disp.add(adv).add(rel, -1)))
+                if any(hi is not None and hi <= 0 for lo, hi in map(st.bounds, us)):
+                    continue
+                bs = set()
+                for u in us:
+                    b2, opq = _deps(u)
+                    if opq:
+                        raise Unmodellable('the source of a copy ends at %r relative to its destination, which depends on %s' % (u, sorted(map(repr, opq))[0]))
+                    bs |= b2
+                uas = st.assignments(bs, 300000)
+                if uas is None:
+                    # too many combinations to tabulate: a concrete witness among the corner values of the bytes still decides the clause (as violated)
+                    corners = [dict(zip(sorted(bs), vals)) for vals in itertools.product(*[sorted({min(st.domain(k)), max(st.domain(k))}) for k in sorted(bs)])]
+                    uas = []
+                    for asg in corners:
+                        try:
+                            if all(_CMP[op2](_lin_value(d2, asg), 0) for d2, op2 in st.cons if _deps(d2)[0] <= set(asg)) and all(_lin_value(u, asg) > 0 for u in us):
+                                uas.append(asg)
+                        except KeyError:
+                            pass
+                    if not uas:
+                        raise Unmodellable('the distance between source and destination of a copy depends on %d input bytes: too many combinations' % len(bs))
+                for asg in uas:
+                    vs = [_lin_value(u, asg) for u in us]
+                    if all(v > 0 for v in vs):
+                        nn = _lin_value(n, asg)
+                        problem('read-source', kind, 'a %s makes a %s of %d byte(s) whose source starts %d byte(s) below its destination: the last %d byte(s) it reads are at or above the '
+                                'destination (not yet decoded%s), e.g. for the token bytes %s' % (
+                                    label, what, nn, nn - vs[0], vs[0], ' / overlapping, undefined for memcpy' if len(us) == 1 else '',
+                                    ' '.join('%02X' % asg[k] if k in asg else '..' for k in sorted(st.src_read))))
+                        break
+            if len(disps) > 1:
+                ds = sorted(disps.values(), key=repr)
+                problem('displacement', kind, 'the copies of one %s use different distances between source and destination (%r and %r): parts of the match are taken from the wrong place' % (label, ds[0], ds[1]))
     return classes, problems
+
+
+def _footprint(ctx):
+    """(classes, problems, paths) of the shipped decoder, or the Unmodellable that stopped the symbolic execution"""
+    def build():
+        paths = []
+        try:
+            classes, problems = token_footprint(_decoder_ast(ctx), paths)
+        except Unmodellable as x:
+            return x
+        return classes, problems, paths
+    res = ctx.memo('sC12.footprint', build)
+    if isinstance(res, Unmodellable):
+        raise res
+    return res
 
 
 def rule_extent(ctx):
@@ -1757,7 +1824,7 @@ def rule_extent(ctx):
     asts = _decoder_asts(ctx)
     decl = [d for d in ctx.cat.decls.get(_DECODER, []) if d.kind == 'func']
     try:
-        classes, problems = token_footprint(asts[_DECODER])
+        classes, problems, _ = _footprint(ctx)
     except Unmodellable as x:
         raise AnalysisError('C12-EXTENT cannot model the token step of %s: %s' % (_DECODER, x))
     n = 0
